@@ -98,33 +98,6 @@ def field_specs(tier):
     return out
 
 
-def prime_alphabet(p):
-    s = {0, 1, 2, 3, p - 1, p - 2, p - 3, (p - 1) // 2, (p + 1) // 2, (p - 3) // 2, (p + 3) // 2, p // 3, p // 3 + 1}
-    for j in range(1, p.bit_length() + 1):
-        for dlt in (-1, 0, 1):
-            s.add((2**j + dlt) % p)
-            s.add((dlt - 2**j) % p)
-    return sorted(s)
-
-
-def ext_alphabet(R):
-    """Codes of elements whose coefficients come from a boundary alphabet (small d) or bit patterns."""
-    p, d, q = R.p, R.d, R.q
-    if p == 2:
-        s = {0, 1, 2, 3, q - 1, q - 2, q >> 1, (q >> 1) + 1, (q >> 1) - 1, rf.undigits(R.modulus, 2) ^ q}
-        s.add(int('01' * (d // 2), 2))
-        s.add(int('10' * (d // 2), 2))
-        step = 1 if d <= 16 else 8
-        for j in list(range(1, d, step)) + [d // 2, d // 2 + 1, d - 1]:
-            s.update(((1 << j) % q, ((1 << j) + 1) % q, ((1 << j) - 1) % q))
-        return sorted(s)
-    ca = sorted({0, 1, 2, p - 2, p - 1, (p - 1) // 2, (p + 1) // 2})
-    codes = [0]
-    for _ in range(d):
-        codes = [c * p + a for c in codes for a in ca]
-    return sorted(set(codes))
-
-
 def int_alphabet(R, full):
     q, p = R.q, R.p
     s = set(range(-(2 * q + 2), 2 * q + 3)) if q <= 27 else set(range(-3, 4))
@@ -338,7 +311,7 @@ def run_unit(part, unit):
     if mode == 'full':
         dom = list(range(R.q))
     else:
-        dom = prime_alphabet(R.p) if R.prime else ext_alphabet(R)
+        dom = rf.alphabet(R)
     rows = dom[unit['lo']:unit['hi']]
     full = mode == 'full'
     ints = int_alphabet(R, full)
@@ -399,7 +372,7 @@ def domain_size(spec, mode):
     R = rf.RefField(spec['p'], spec.get('mod'))
     if mode == 'full':
         return R.q, R
-    return len(prime_alphabet(R.p) if R.prime else ext_alphabet(R)), R
+    return len(rf.alphabet(R)), R
 
 
 def jobs(tier, seed):
